@@ -1,10 +1,9 @@
 package main
 
-// C16 / embedded-httpapi: the two splitters without lineage. The harness stands in for the job
+// C16 / parts embedded and httpapi: the two splitters without lineage. The harness stands in for the job
 // (forwarding assignments to real SourceReaders of the connector, assembling the checkpoint).
 
 import (
-	"encoding/binary"
 	"errors"
 	"fmt"
 	"sort"
@@ -25,7 +24,7 @@ type simpleWorld struct {
 	kind     string
 	cfg      connectors.SourceConfig
 	hist     []string
-	splitIDs []string                     // every split id the source has
+	splitIDs []string                      // every split id the source has
 	seqOf    func(ev []byte) (string, int) // event -> (split id, position in the split's sequence)
 	desc     map[string]any
 	consumed map[string][]int // per split: positions read and "kept" (before the checkpoint / after the restore)
@@ -170,15 +169,18 @@ func (w *simpleWorld) read(inc *incarnation, runner string) (map[string][]int, b
 	return out, eoi
 }
 
-func simpleCase(c *lib.Ctx) {
+func embeddedCase(c *lib.Ctx) { simpleCase(c, "embedded") }
+func httpapiCase(c *lib.Ctx)  { simpleCase(c, "httpapi") }
+
+func simpleCase(c *lib.Ctx, kind string) {
 	r := c.R
 	w := &simpleWorld{c: c, consumed: map[string][]int{}}
 	c.OnPanic = func() any { return w.witness() }
 	nRunners := 1 + r.Intn(4)
 	if c.Index < 8 {
-		nRunners = 1 + (c.Index/2)%4 // runner counts 1..4 for both connectors in the first cases
+		nRunners = 1 + c.Index%4 // runner counts 1..4 in the first cases
 	}
-	if c.Index%2 == 0 {
+	if kind == "embedded" {
 		w.kind = "embedded"
 		cfg := embedded.SourceConfig{SplitCount: 1 + r.Intn(6), BatchSize: 1 + r.Intn(5)}
 		w.cfg = cfg
@@ -220,6 +222,9 @@ func simpleCase(c *lib.Ctx) {
 		total := 0
 		for _, rn := range lib.Shuffled(r, inc.runners) {
 			k := r.Intn(maxReads + 1)
+			if k == 0 && r.Intn(3) > 0 {
+				k = 1
+			}
 			for i := 0; i < k; i++ {
 				got, _ := w.read(inc, rn)
 				if got == nil {
@@ -293,5 +298,4 @@ func simpleCase(c *lib.Ctx) {
 	if c.Index < 4 {
 		c.Sample(w.witness())
 	}
-	_ = binary.BigEndian
 }
